@@ -174,7 +174,9 @@ def run(ctx, ops=None):
     except ImportError:
         pass
     obligations, discharged = vlib.standard_proof_steps(ctx)
+    ctx.log("proof steps done")
     bins = compile_many(ctx, specs())
+    ctx.log("harnesses compiled")
     if "h1" in bins: bins["h1r"] = bins["h1"]      # same binary, own process: the forking RLE ops run beside the others
     tags = {}
     given = ops
@@ -197,9 +199,12 @@ def run(ctx, ops=None):
         ctx.notes.append("tree under test carries the proposed pnm gray1 fix: model variant %s" % mono)
         ops = [o.replace(" pnm gray1 ", " pnm %s " % mono, 1) for o in ops]
     impl = run_routed(ctx, bins, route, ops, args=(ctx.scratch,))
+    ctx.log("native harness run done")
     impl, model = correspond_with(ctx, "drv_C13", ops, impl)
+    ctx.log("native: %d ops" % len(ops))
     # PNG / TIFF / JPEG: files written by the real writers (Adam7 png by libpng directly), judged only
     xops = [o for o in (given or []) if o[0] == "x"] if given is not None else gen_ext(ctx)
+    ximpl = []
     if xops:
         ximpl = run_routed(ctx, bins, route, xops, args=(ctx.scratch,))
         keep = [i for i, o in enumerate(ximpl) if o != "codec-not-configured"]
@@ -208,8 +213,12 @@ def run(ctx, ops=None):
         ctx.log("ext: %d ops" % len(xops))
     distinct = len({o for o in ops + xops if nontrivial(o)})
     samples = []
-    for i in (0, len(ops) // 3, 2 * len(ops) // 3, len(ops) - 1):
-        samples.append({"op": ops[i][:160], "impl": impl[i][:200], "model": model[i][:200]})
+    if ops:
+        for i in (0, len(ops) // 3, 2 * len(ops) // 3, len(ops) - 1):
+            samples.append({"op": ops[i][:160], "impl": impl[i][:200], "model": model[i][:200]})
+    if xops:
+        for i in (0, len(xops) - 1):
+            samples.append({"op": xops[i][:160], "impl": ximpl[i][:200], "model": "(no model prediction: judged only)"})
     kinds = {}
     for o in ops + xops: kinds[o.split()[0]] = kinds.get(o.split()[0], 0) + 1
     hi = 7 if ctx.thorough() else 5
